@@ -416,6 +416,18 @@ func (m *Machine) initPackage(pkg *ssa.Package) {
 			}
 		}
 	}
+	if pkg.Pkg.Path() == "io/fs" {
+		// io/fs's initializer is not run; its error sentinels are internal/oserror's (as in the real package)
+		if op := m.pkgs["internal/oserror"]; op != nil {
+			for _, n := range []string{"ErrInvalid", "ErrPermission", "ErrExist", "ErrNotExist", "ErrClosed"} {
+				if fg, ok := pkg.Members[n].(*ssa.Global); ok {
+					if og, ok := op.Members[n].(*ssa.Global); ok {
+						*m.globals[fg] = *m.globalAddr(og)
+					}
+				}
+			}
+		}
+	}
 	if pkg.Pkg.Path() == "os" {
 		// os's initializer is not run; its error sentinels alias io/fs's (as in the real package)
 		if fsp := m.pkgs["io/fs"]; fsp != nil {
